@@ -7,13 +7,50 @@ namespace Mhd.Send
 open Mhd.Gen.Send
 
 theorem frames_end (r : Resp) (p : Nat) (h : r.body.length ≤ p) : frames r p = [] := by
-  rw [frames]; simp [Nat.not_lt.mpr h]
+  unfold frames
+  have : r.body.length - p = 0 := by omega
+  rw [this]; rfl
+
+/-- more fuel than positions left changes nothing -/
+theorem framesAux_fuel (r : Resp) : ∀ (f p : Nat), r.body.length - p ≤ f →
+    framesAux r f p = framesAux r (r.body.length - p) p
+  | 0, p, h => by
+    have : r.body.length - p = 0 := by omega
+    rw [this]
+  | f + 1, p, h => by
+    by_cases hlt : p < r.body.length
+    · have hs : r.body.length - p = (r.body.length - p - 1) + 1 := by omega
+      rw [hs]
+      simp only [framesAux, hlt, if_true]
+      generalize capMax r.cbMax (min (sizeToFill0 r) (r.body.length - p)) = n
+      by_cases hn : n = 0
+      · simp only [hn, if_true]
+      · simp only [hn, if_false]
+        congr 1
+        have hpos : 1 ≤ n := Nat.pos_of_ne_zero hn
+        rw [framesAux_fuel r f (p + n) (by omega), framesAux_fuel r (r.body.length - p - 1) (p + n) (by omega)]
+    · have : r.body.length - p = 0 := by omega
+      rw [this]
+      simp only [framesAux, hlt, if_false]
+
+theorem framesAux_succ (r : Resp) (f p : Nat) (h : p < r.body.length)
+    (hn : capMax r.cbMax (min (sizeToFill0 r) (r.body.length - p)) ≠ 0) :
+    framesAux r (f + 1) p = chunkFrame (slice r.body p (capMax r.cbMax (min (sizeToFill0 r) (r.body.length - p))))
+                 ++ framesAux r f (p + capMax r.cbMax (min (sizeToFill0 r) (r.body.length - p))) := by
+  simp only [framesAux, h, if_true, hn, if_false]
 
 theorem frames_step (r : Resp) (p : Nat) (h : p < r.body.length)
     (hn : capMax r.cbMax (min (sizeToFill0 r) (r.body.length - p)) ≠ 0) :
     frames r p = chunkFrame (slice r.body p (capMax r.cbMax (min (sizeToFill0 r) (r.body.length - p))))
                  ++ frames r (p + capMax r.cbMax (min (sizeToFill0 r) (r.body.length - p))) := by
-  rw [frames]; simp [h, hn]
+  unfold frames
+  have hs : r.body.length - p = (r.body.length - p - 1) + 1 := by omega
+  conv => lhs; rw [hs]
+  rw [framesAux_succ r _ p h hn]
+  congr 1
+  have hpos : 1 ≤ capMax r.cbMax (min (sizeToFill0 r) (r.body.length - p)) := Nat.pos_of_ne_zero hn
+  generalize capMax r.cbMax (min (sizeToFill0 r) (r.body.length - p)) = n at *
+  exact framesAux_fuel r (r.body.length - p - 1) (p + n) (by omega)
 
 theorem sizeUnknown_big : maxChunk < sizeUnknown := by decide
 
@@ -129,7 +166,7 @@ theorem hw_headers_inv {r : Resp} {c : Conn} (hw : WF r) (h : Inv r c) (hs : c.s
         have hrle : ret - (c.ao - c.so) ≤ r.body.length := by
           simp only [List.length_append, hlen] at hn; omega
         have hcore : Core r { c with out := c.out ++ o.wire, so := 0, ao := 0, rp := ret - (c.ao - c.so), st := .headersSent } := by
-          refine ⟨fun _ => hrle, (h.core hstne).win, ?_, ?_, (h.core hstne).sfOk, (h.core hstne).winChunk⟩
+          refine ⟨fun _ => hrle, (h.core hstne).win, ?_, ?_, (h.core hstne).sfOk, (h.core hstne).winChunk, (h.core hstne).iovNe, (h.core hstne).sfWin⟩
           · intro hk'; rw [hk] at hk'; cases hk'
           · have := (h.core hstne).tot
             unfold TotOk at this ⊢
